@@ -121,6 +121,11 @@ def gen_case(n, kw=None, scoped_bias=SCOPED_BIAS, max_ops=8, single_line=False, 
     # the op generator needs the evolving model: apply the model as we go (refused ops leave it unchanged)
     for _ in range(r.randint(1, max_ops)):
         op, path, value, cls = E.gen_op(r, model, scoped_bias=scoped_bias, single_line=single_line, **(op_kw or {}))
+        if path.startswith("@"):
+            if flags.get("no_create_layer_under_with") and op == "set" and not model.layers and view.kinds and view.kinds[-1] in ("with", "assert"):
+                continue
+            if flags.get("no_drop_only_layer") and op == "rm" and len(model.layers) == 1 and len(model.layers[0]) == 1:
+                continue
         ops.append((op, path, value, cls))
         try:
             model.apply(op, path, value)
